@@ -49,7 +49,7 @@ def odd_structure(rng, root, L, mp):
     d = os.path.join(root, os.path.dirname(mp))
     kind = rng.choice(['hidden_dir_entry', 'ignored_manifest', 'hidden_manifest', 'data_and_manifest',
                        'corrupt_compressed', 'corrupt_compressed', 'now_ignored', 'files_file', 'odd_manifest_path',
-                       'self_reference', 'self_listing_sub', 'dup_lines_missing', 'sysfs_link', 'binary_manifest'])
+                       'self_reference', 'self_listing_sub', 'dup_lines_missing', 'sysfs_link', 'binary_manifest', 'manifest_ring'])
     subm = b'DATA f 1 SHA1 ' + _sha1(b'x').encode() + b'\n'
 
     def put(rel, data):
@@ -124,6 +124,14 @@ def odd_structure(rng, root, L, mp):
                 put('dl/keep', b'k')
                 m_ = b'DATA a 1 SHA1 00\nDATA a 1 SHA1 00\n'
                 return ['MANIFEST dl/Manifest %d SHA1 %s' % (len(m_), _sha1(m_)), 'DATA dl/a 1 MD5 00']
+            return []
+        if kind == 'manifest_ring':
+            # three Manifests of one directory referencing each other in a ring (sizes consistent, no hashes)
+            if put('rg/Manifest', b'MANIFEST M2 15\n'):
+                put('rg/M2', b'MANIFEST M3 21\n')
+                put('rg/M3', b'MANIFEST Manifest 15\n')
+                put('rg/f', b'x')
+                return ['MANIFEST rg/Manifest 15'] if rng.random() < 0.7 else []
             return []
         if kind == 'binary_manifest':
             # a file that merely has a Manifest name: binary, not even UTF-8
